@@ -76,8 +76,9 @@ def reset_stats():
 def _nonlinear(e, _cache={}):
     """cheap syntactic test: does the term multiply two non-constant factors?"""
     i = e.get_id()
-    if i in _cache:
-        return _cache[i]
+    hit = _cache.get(i)
+    if hit is not None:
+        return hit[0]
     r = False
     if z3.is_app(e):
         k = e.decl().kind()
@@ -94,7 +95,7 @@ def _nonlinear(e, _cache={}):
                     break
     if len(_cache) > 200000:
         _cache.clear()
-    _cache[i] = r
+    _cache[i] = (r, e)  # keep e alive: ast ids are reused after garbage collection
     return r
 
 
@@ -927,8 +928,5 @@ def model_value(m, sv, default=Fraction(0)):
         return _const(sv)
     if sv.c is not None:
         return sv.c
-    v = m.eval(sv.e, model_completion=True)
-    try:
-        return frac_of(v)
-    except ValueError:
-        return default
+    v = z3.simplify(m.eval(sv.e, model_completion=True))
+    return frac_of(v)  # ValueError when the model does not determine a number (e.g. x/0)
